@@ -98,6 +98,13 @@ def gen(d, tier):
             if src is None:
                 continue
             dst = newpath() if d.chance(3, 4) else (disp[existing()] if existing() else newpath())
+            if d.chance(1, 3):
+                # replacing renames: onto an existing object of the same type (for folders preferably an empty one)
+                same = sorted(q for q, t in tree.items() if q and q != src and t == tree[src])
+                empty = [q for q in same if tree[q] == "dir" and not any(r.startswith(q + "/") for r in tree)]
+                pool = empty if (empty and d.chance(3, 4)) else same
+                if pool:
+                    dst = disp[d.choice(pool)]
             if key(dst) == src or key(dst).startswith(src + "/"):
                 continue
             acts.append(["rename", variant(disp[src]), dst])
@@ -224,7 +231,7 @@ def _run(trace, flav, prov):
     ci = flav.endswith("_ci")
     ref = Ref(ci)
     muts = []           # (kind, oid, exists) expected in the event stream
-    flags = {"big": False, "dir_rename": False, "expected_error": False}
+    flags = {"big": False, "dir_rename": False, "expected_error": False, "replaced_empty_folder": False}
     id_style = not prov.oid_is_path
     list(prov.events())     # start from a clean stream
 
@@ -302,6 +309,11 @@ def _run(trace, flav, prov):
                 if tgt is not None:
                     ref.dead.append(tgt["oid"])
                     del ref.t[ref.key(dst)]
+                    flags["replaced_empty_folder"] = True
+                    if id_style:
+                        # the replaced (empty) folder stops existing: a mutation the stream has to report under ITS id
+                        # (path-style: its id is the path, which the moved folder re-occupies at once)
+                        muts.append(("replaced", tgt["oid"], False))
                 ks, kd = ref.key(src), ref.key(dst)
                 moved = [q for q in list(ref.t) if q == ks or q.startswith(ks + "/")]
                 if len(moved) > 1:
